@@ -55,4 +55,4 @@ EXPLORE = {'sim': (sim_cases(), execute_sim), 'real': (rp.c02_cases(), rp.execut
 def run(ctx):
     ctx.explore('sim', sim_cases(), execute_sim, n=ctx.pick(250, 25000))
     ctx.explore('real', rp.c02_cases(), rp.execute_c02, n=ctx.pick(6, 150),
-                shrink_budget=6)
+                shrink_budget=6, reexecute_confirm=2)
